@@ -20,6 +20,10 @@ GridCases(models) ==
 SharedTemplateCases ==
   { [vals |-> <<v1, v2>>, permute |-> pm, index |-> <<>>, keys |-> ks, model |-> 4, vec |-> ve, inp |-> FALSE] :
       ks \in {<<1, 6>>, <<6, 1>>, <<6, 4>>}, v1 \in {<<-2, -4, -6>>}, v2 \in {<<-8, -10, -12>>}, pm \in {FALSE}, ve \in BOOLEAN }
+(* delays swept under dde_approx: the rows' gamma chains (rate = order / delay) must not be merged *)
+ApproxDelayCases ==
+  { [vals |-> <<v>>, permute |-> FALSE, index |-> <<>>, keys |-> <<5>>, model |-> 3, vec |-> ve, inp |-> FALSE, approx |-> 2] :
+      v \in {<<20, 21, 22>>, <<21, 20, 40>>}, ve \in BOOLEAN }
 EdgeAttrCases ==
   { [vals |-> [k \in 1..Len(ks) |-> v], permute |-> FALSE, index |-> <<>>, keys |-> ks, model |-> 3, vec |-> ve, inp |-> FALSE] :
       ks \in {<<5>>, <<3, 5>>, <<5, 3>>}, v \in ValLists(3), ve \in BOOLEAN }
